@@ -117,6 +117,8 @@ impl SubscriptionActor {
             let deleted = actor.observer.deleted();
             let poll = async {
                 loop {
+                    #[cfg(deltio_verif)]
+                    crate::verif::point("subscription_actor.loop").await;
                     tokio::select! {
                         Some(request) = receiver.recv() => {
                             actor.receive(request).await
@@ -222,6 +224,8 @@ impl SubscriptionActor {
 
         // If there are still messages left in the backlog, trigger another signal.
         if !self.backlog.is_empty() {
+            #[cfg(deltio_verif)]
+            crate::verif::probe("pull_left_backlog");
             self.observer.notify_new_messages_available();
         }
 
@@ -268,6 +272,8 @@ impl SubscriptionActor {
         }
 
         self.deleted = true;
+        #[cfg(deltio_verif)]
+        crate::verif::probe("subscription_delete_processed");
 
         // If the topic is still around, remove ourselves from it's list of subscriptions.
         if let Some(topic) = self.topic.upgrade() {
@@ -307,6 +313,12 @@ impl SubscriptionActor {
     /// Handles expired messages by putting them back into the backlog.
     fn handle_expired_messages(&mut self, expired: Vec<PulledMessage>) {
         log::debug!("{}: {} messages expired", &self.info.name, expired.len());
+        #[cfg(deltio_verif)]
+        crate::verif::probe(if expired.len() > 1 {
+            "expiry_batch_gt1"
+        } else {
+            "expiry_batch_1"
+        });
         self.backlog
             .append(expired.into_iter().map(|p| p.into_message()));
 
